@@ -24,6 +24,7 @@
    neg                        -> neg:c=<done>,<ver>,<suite>,<group>,<sigalg>,<ems>,<k c2s>,<k s2c>,<err> s=...
    cfgv                       -> cfgv:c=<supportedVersions>:<priority csv> s=...
 */
+#define SESS_NO_TRACEBYTES_WRAP
 #include "sess.h"
 
 /* the library dumps "have"/"expect" verify_data on stdout when a Finished does not match (hsDecode.c psTraceBytes):
